@@ -30,7 +30,9 @@ EvResult == /\ E.t = "result" /\ UNCHANGED got
                                                   /\ (E.per # <<>> /\ Len(E.per) = Len(E.edge_per)) =>
                                                         \A k \in 1..Len(E.per) : (E.edge_per[k] # 250 => E.per[k] = E.edge_per[k])
                                                                                   /\ (E.edge_per[k] = 250 => E.per[k] \div 100 = E.edge_code \div 100))
-Next == /\ l <= Len(Tr) /\ (EvGot \/ EvExt \/ EvResult) /\ l' = l + 1 /\ UNCHANGED tid
+\* (the conversation in the vocabulary of spec/Hop.tla: judged against that model's behaviours by harness/hopbeh.py)
+EvWire == /\ E.t = "wire" /\ UNCHANGED <<got, bad>>
+Next == /\ l <= Len(Tr) /\ (EvGot \/ EvExt \/ EvResult \/ EvWire) /\ l' = l + 1 /\ UNCHANGED tid
 Spec == Init /\ [][Next]_vars
 AtEnd == l = Len(Tr) + 1
 Watch == AtEnd => PrintT(<<"END", T.id, bad>>)
